@@ -89,6 +89,14 @@ def build(spec):
         # counties of very different size: some hold enough calibration units for their own gaussian model, others
         # fall back to their state, so that group-wise and fallback rows are mixed in one aggregate
         o.update(el_n_units=int(rng.integers(150, 350)), el_county_size_spread=1.0, el_counties_per_state=int(rng.integers(3, 7)))
+    if (i // 15) % 3 == 1:
+        # all counts of the election sit just below a machine-integer boundary (tiny precincts: 127, mid-size counties:
+        # 32767) and the feed arrives as the documented list of lists, so that the victim's new count is the only one
+        # above it: any narrowing of the numeric type by the largest value of a column becomes visible
+        tiny = (i // 45) % 2 == 0
+        o.update(el_size_range=(50, 110) if tiny else (16000, 31000), feed_unexpected_max=100 if tiny else 30000,
+                 feed_as_lists=True, feed_float_counts=False, el_tiny_county=False, el_n_zero_baseline=1,
+                 el_noise_scale=0.05)
     el, feed, status, call = cases_mod.build(spec["seed"], PROPERTY, i, o)
     mp = call["model_parameters"]
     if est != "bootstrap" and not call["features"]:
